@@ -271,9 +271,9 @@ type FaultAt struct {
 	// Persist: every call from K on fails (an outage), the first one after Elems
 	// elements, the later ones before delivering anything
 	Persist bool
-	mu    sync.Mutex
-	Fired bool
-	Hit   Call
+	mu      sync.Mutex
+	Fired   bool
+	Hit     Call
 }
 
 // ErrInjected is the injected driver error.
